@@ -81,6 +81,8 @@ def term(v, scss=False):
         return "true" if v[1] else "false"
     if k == "num":
         return f"n {v[1]} {v[2]}"
+    if k == "numa":
+        return f"na {v[1]} {v[2]}"
     if k == "str":
         q = v[2]
         if scss and q == "s":
@@ -135,6 +137,12 @@ def scss(v, top=True):
             s = repr(float(x)).replace(".0", "") + "e0"
         t = s + us
         return f"({t})" if x < 0 else t
+    if k == "numa":
+        # a number NOT marked "calculated": the result of calc() — only meaningful inline
+        inner = scss(("num", v[1], v[2], v[3]))
+        if inner is None or inner.startswith("math.") or inner.startswith("("):
+            return None
+        return f"calc({inner})"
     if k == "str":
         t, q = v[1], v[2]
         if any(c in t for c in "\\\"'\n#{}") or any(ord(c) < 32 for c in t):
@@ -330,7 +338,7 @@ def respell(v, rng):
 
 def units_in(v, acc):
     k = v[0]
-    if k == "num":
+    if k in ("num", "numa"):
         acc.add(v[2])
     elif k in ("list", "arglist"):
         for i in v[1]:
@@ -374,7 +382,8 @@ def conv_field(*values):
     return ";".join(ent) or "-"
 
 
-VALUE_FLAGS = {"numEqAsymmetric", "convCmpOneWay", "mapEqOrdered", "mapEqOneSided", "argListNeverEqual"}
+VALUE_FLAGS = {"numEqAsymmetric", "convCmpOneWay", "mapEqOrdered", "mapEqOneSided", "argListNeverEqual",
+               "strEqSameQuotesRaw", "ordCalcFlag"}
 
 
 def live_value_flags(pid):
@@ -390,7 +399,7 @@ def live_value_flags(pid):
     except OSError:
         return []
     cand = [f for f in kf if f.get("status") == "open" and f.get("property") != pid
-            and set(f.get("flags", [])) & VALUE_FLAGS and f.get("witness", "").split("\t")[0] in ("veq", "seq")]
+            and set(f.get("flags", [])) & VALUE_FLAGS and f.get("witness", "").split("\t")[0] in ("veq", "seq", "seqin")]
     if not cand:
         return []
     out = run_impl([f["witness"] for f in cand])
